@@ -59,8 +59,16 @@ def tolerated_classes():
     return out
 
 
+def property_kinds():
+    """the tolerated kinds as the PROPERTY names them (closed connection, invalid channel, timeout), resolved without looking at
+    plumpy's source: the reference of the monitors"""
+    import aio_pika.exceptions as ae
+    return {'ConnectionClosed': ae.ConnectionClosed, 'ChannelInvalidStateError': ae.ChannelInvalidStateError,
+            'TimeoutError': kiwipy.TimeoutError}
+
+
 def make_exc(clsname):
-    cls = tolerated_classes().get(clsname)
+    cls = tolerated_classes().get(clsname) or property_kinds().get(clsname)
     if cls is None:
         return Injected('injected')
     try:
@@ -79,7 +87,6 @@ class HComm(kiwipy.LocalCommunicator):
         self.fail = fail
         self.n_state = 0          # state-change broadcasts attempted by the process so far = transition index
         self.injected = None      # index at which the injected exception was raised
-        self.fail_is_tolerated = True
         self.rpc_ids, self.bc_ids = set(), set()
 
     def add_rpc_subscriber(self, subscriber, identifier=None):
@@ -138,6 +145,7 @@ class Hooked:
         self.h_trace = []       # user functions called, with the paused flag
         self.h_events = []      # handlers that ran during the current callback
         self.h_cleanups = []
+        self.h_escaped = []     # exceptions that left on_entered (they propagate into transition_to)
         self.h_by_harness = False
         if Hooked.RECORDER is not None:
             Hooked.RECORDER.proc = self
@@ -147,6 +155,13 @@ class Hooked:
 
     def _rec(self, name, *a, **k):
         self.h_trace.append((name, a, tuple(sorted(k.items())), self.paused))
+
+    def on_entered(self, from_state):
+        try:
+            return super().on_entered(from_state)
+        except Exception as e:  # noqa
+            self.h_escaped.append(type(e).__name__)
+            raise
 
     # the points where a message's handler runs
     def message_receive(self, *a, **k):
@@ -417,7 +432,7 @@ class Run:
 
     def model_line(self, ret):
         """the observation compared with the Lean model"""
-        if self.comm.injected is not None and not self.comm.fail_is_tolerated:
+        if self.proc.h_escaped:
             return 'hookfail'
         sb = self.state_broadcasts()
         fresh = sb[self.n_state_seen:]
@@ -455,17 +470,17 @@ def phase_of(p):
 # --------------------------------------------------------------------------------------------- the remotely controlled run
 def run_remote(prog, sched, fail=None, max_cb=400, after_checks=True):
     """returns dict(ops, lines, events, replies, run-level facts); `events` drives the twin"""
-    tol = tolerated_classes()
     late = any(op == 'env start' for ops in sched.values() for op in ops)
     R = Run(prog, fail, start=not late)
-    R.comm.fail_is_tolerated = fail is None or fail[1] in tol
     res = dict(prog=prog, ops=[f"case {prog} {'-' if fail is None else '%d:%s' % fail}"], lines=[], events=[], replies={},
-               msgs={}, ctor_error=R.ctor_error, hookfail_at=None, hist={}, status_checks=[], after=[], unknown=[])
+               msgs={}, ctor_error=R.ctor_error, hookfail_at=None, hist={}, status_checks=[], after=[], after_ids=[],
+               escaped=[])
     if R.proc is None:
         res['lines'].append('hookfail')
         res['hookfail_at'] = 0
         res['final'] = None
         res['injected'] = R.comm.injected
+        res['escaped'] = list(R.rec.proc.h_escaped) if R.rec.proc is not None else []
         R.close()
         return res
     p = R.proc
@@ -640,6 +655,8 @@ def run_remote(prog, sched, fail=None, max_cb=400, after_checks=True):
             before = R.twin_obs()
             nready = R.loop.n_ready()
             send(op)
+            if res['events'][-1].get('result', '').startswith('sent:'):
+                res['after_ids'].append(int(res['events'][-1]['result'].split(':')[1]))
             res['after'].append(dict(op=op, ret=res['events'][-1].get('result'), changed=(before != R.twin_obs()),
                                      scheduled=R.loop.n_ready() - nready))
     res['ops'].append('end')
@@ -655,6 +672,7 @@ def run_remote(prog, sched, fail=None, max_cb=400, after_checks=True):
     res['rec_log'] = list(R.rec.log)
     res['n_state'] = R.comm.n_state
     res['injected'] = R.comm.injected
+    res['escaped'] = list(p.h_escaped)
     res['loop_left'] = R.loop.n_ready()
     res['replies'] = None
     R.close()
